@@ -271,7 +271,7 @@ class StochasticScenario(Scenario):
             if r < 0.3:      # a neighbour of the previous integer seed (s+1, s-1, s^1): still a different seed
                 s_ = max(0, last_seed[0] + rng.choice([1, -1, (last_seed[0] ^ 1) - last_seed[0]]))
             else:
-                s_ = rng.choice([rng.randrange(2 ** 31), rng.randrange(100), [rng.randrange(100), rng.randrange(100)]])
+                s_ = rng.choice([0, rng.randrange(2 ** 31), rng.randrange(100), [rng.randrange(100), rng.randrange(100)]])
             if isinstance(s_, int):
                 last_seed[0] = s_
             return s_
@@ -338,7 +338,11 @@ class StochasticScenario(Scenario):
             if ev['fn'] in SEEDED:
                 done[c].append(ev)
             if done[c] and rng.random() < 0.15:
-                d = copy.deepcopy(rng.choice(done[c]))
+                src = rng.choice(done[c])
+                if rng.random() < 0.5:
+                    # the caller modifies, in place, the frame it was handed (it owns it) before asking again
+                    out.append({'env': 'perturb', 'target': '@' + src['id'], 'seed': rng.randrange(10 ** 6), 'unshared': True})
+                d = copy.deepcopy(src)
                 d['id'] = d['id'] + 'd%d' % len(out)
                 d.setdefault('t', {})['dup'] = True
                 out.append(d)
@@ -381,6 +385,13 @@ class StochasticScenario(Scenario):
             E('read_noise', ['@IMG', 7.5], {'seed': 4}, t={'distinct_expected': True})
             E('dark_current', [17.9], {'shape': [5, 7], 'fpn_factor': 0, 'seed': 1})
             E('dark_current', [17.9], {'shape': [5, 7], 'fpn_factor': 0.3, 'seed': 1})
+            events.append({'env': 'perturb', 'target': '@p%d' % n[0], 'seed': 3, 'unshared': True})
+            E('dark_current', [17.9], {'shape': [5, 7], 'fpn_factor': 0.3, 'seed': 1}, t={'dup': True})
+            for fn_, a_, k_ in (('read_noise', ['@IMG', 3.0], {}), ('shot_noise', ['@IMG'], {'method': 'poisson'}),
+                                ('dark_current', [50.0], {'shape': [4, 4], 'fpn_factor': 0.2})):
+                E(fn_, a_, dict(k_, seed=0))
+                events.append({'env': 'rng_seed', 'seed': 4242})
+                E(fn_, a_, dict(k_, seed=0), t={'dup': True, 'after_rng_fault': True})
             E('rule07_dark_current', [120.0, 5e-6, 18e-6], {'shape': [4, 6], 'fpn_factor': 0, 'seed': 1})
             for mk in ('MQ', 'MR'):
                 E('power_spectrum', ['@' + mk], {'pixelscale': 1e-3, 'rms': 5e-8, 'half_power_freq': 8.0, 'exp': 3.0, 'seed': 21})
